@@ -451,6 +451,21 @@ def slot_arithmetic(ctx):
         ok = ok and 'partition' in show(i_t, maxdepth=6)
     if not ok:
       ok = _slots_by_witness(m, fg)
+    dims_en = [x for x in walk(en) if fn_name(x) == 'should_precondition_dims' or method_name(x) == 'should_precondition_dims']
+    if not ok and dims_en:
+      dims = dims_en
+      # a running offset instead of i * k: `start` is a loop-carried variable that is 0 at entry and becomes `end` =
+      # start + k at the end of every iteration, and the blocks are taken from the front of the partitioner's list one by one
+      dm = dims[0] if dims else None
+      k_t = spec_term(ev, 'sum(dims)', {'dims': dm})
+      if st.op == 'phi' and is_const(st.args[2], 0) and cmpr.same(en, T('bin', '+', st, k_t)) and cmpr.same(rk, spec_term(ev, 'len(dims)', {'dims': dm})):
+        final = ev.last_scope.vars.get(st.args[1])
+        carried = final is not None and final.op == 'loop' and final.args[0] == st.args[0] and final.args[1] == st.args[1] and is_const(final.args[2], 0) and \
+            cmpr.same(final.args[3], en)
+        pb = [c2 for c2 in ev.calls if c2.callee.endswith('._precondition_block')]
+        front = bool(pb) and all(any(method_name(v_) == 'pop' and v_.args[1] and is_const(v_.args[1][0], 0) and 'partition' in show(v_, maxdepth=6) for v_ in c2.args.values()) or
+                                 any(v_.op == 'elem' and 'partition' in show(v_, maxdepth=6) for v_ in c2.args.values()) for c2 in pb)
+        ok = carried and front
     ctx.ob('C06.S5', fg.short, 'block i gets preconditioners [i*k, (i+1)*k)', ok,
            f'block i must receive the slice [i*k, (i+1)*k) with k = number of preconditioned dims and rank = len(dims); got start=`{cmpr.fmt(st)}` end=`{cmpr.fmt(en)}` rank=`{cmpr.fmt(rk)}`',
            ctx.loc(fg), sample='start=i*k, end=(i+1)*k, rank=len(dims)')
